@@ -174,8 +174,8 @@ M = [
      '    if args.validate and not args.overrides:\n        if ctx_dict and args.verbose:\n            logger.debug("Ignoring --context for validation")\n        print("Config valid.")\n        return EXIT_SUCCESS\n'),
     # ---------------------------------------------------------------- C09
     ("c09_context_shared_between_runs", "C09", CLI,
-     '            run_context = dict(ctx_dict)\n            run_context.update(run_values)\n',
-     '            run_context = ctx_dict\n            run_context.update(run_values)\n'),
+     '            run_context = copy.deepcopy(ctx_dict)\n            run_context.update(copy.deepcopy(run_values))\n',
+     '            run_context = ctx_dict\n            run_context.update(copy.deepcopy(run_values))\n'),
     ("c09_index_one_based", "C09", CLI,
      '                    "run_space_index": idx,',
      '                    "run_space_index": idx + 1,'),
